@@ -109,6 +109,88 @@ def _lit(s: str):
 # ----------------------------------------------------------------------------- generation
 
 _TOO_BIG = ("big",)
+MARKERS = ("reload", "restart", "update", "recheck")  # ops that are not expressions
+
+
+def _pos(rng, n):
+    """where two near-identical operands differ: at the start, in the middle, at the very end, or anywhere"""
+    return rng.choice([0, n // 2, n - 1, rng.randrange(n)])
+
+
+def _big_pair(rng, kind=None, size=None):
+    """two LONG / DEEP / LARGE literals that differ in exactly one place (far beyond any plausible truncation limit
+    of a printer): (kind, literal a, literal b)"""
+    kind = kind or rng.choice(["str", "int", "list", "tuple", "set", "dict", "nested", "liststr", "dictkey"])
+    alphabet = "abcdefghijklmnopqrstuvwxyz0123456789/_-."
+    if kind == "str":
+        n = size or rng.choice([31, 45, 80, 300, 2000])
+        a = [rng.choice(alphabet) for _ in range(n)]
+        i = _pos(rng, n)
+        b = list(a)
+        b[i] = "X" if a[i] != "X" else "Y"
+        return kind, repr("".join(a)), repr("".join(b))
+    if kind == "int":
+        n = size or rng.choice([41, 60, 120, 400])
+        a = int("".join([rng.choice("123456789")] + [rng.choice("0123456789") for _ in range(n - 1)]))
+        k = _pos(rng, n)
+        b = a + 10 ** k if (a // 10 ** k) % 10 != 9 else a - 10 ** k
+        sign = rng.choice(["", "", "-"])
+        return kind, sign + str(a), sign + str(b)
+    if kind in ("list", "tuple"):
+        n = size or rng.choice([7, 12, 40, 300])
+        a = [rng.randrange(10) for _ in range(n)]
+        i = _pos(rng, n)
+        b = list(a)
+        b[i] = a[i] + 10
+        f = (lambda x: repr(x)) if kind == "list" else (lambda x: repr(tuple(x)))
+        return kind, f(a), f(b)
+    if kind == "set":
+        n = size or rng.choice([7, 20, 100])
+        a = set(range(n))
+        b = set(a)
+        b.discard(_pos(rng, n))
+        b.add(n + 5)
+        return kind, repr(a), repr(b)
+    if kind == "dict":
+        n = size or rng.choice([5, 12, 60])
+        a = {i: i * i for i in range(n)}
+        b = dict(a)
+        b[_pos(rng, n)] = -1
+        return kind, repr(a), repr(b)
+    if kind == "dictkey":
+        n = size or rng.choice([5, 12, 60])
+        a = {f"k{i}": i for i in range(n)}
+        i = _pos(rng, n)
+        b = {(k if j != i else k + "x"): v for j, (k, v) in enumerate(a.items())}
+        return "dict", repr(a), repr(b)
+    if kind == "nested":
+        depth = size or rng.choice([7, 10, 25])
+        wrap = rng.choice(["list", "tuple", "mixed"])
+
+        def nest(leaf):
+            x = leaf
+            for lvl in range(depth):
+                w = wrap if wrap != "mixed" else ("list", "tuple", "dict")[lvl % 3]
+                x = [x] if w == "list" else ((x,) if w == "tuple" else {"k": x})
+            return x
+
+        return ("list" if wrap != "tuple" else "tuple") if wrap != "mixed" else "nested", repr(nest(1)), repr(nest(2))
+    # a short list of long strings
+    _, x, y = _big_pair(rng, "str")
+    _, z, _w = _big_pair(rng, "str")
+    order = rng.random() < 0.5
+    return "list", f"[{z}, {x}]" if order else f"[{x}, {z}]", f"[{z}, {y}]" if order else f"[{y}, {z}]"
+
+
+BIG_OPS = {
+    "str": ["eq", "ne", "contains", "add", "lt", "ge", "getitem", "mod"],
+    "int": ["add", "sub", "eq", "lt", "floordiv", "mod", "and", "or", "xor", "mul", "rmul", "ne"],
+    "list": ["add", "eq", "ne", "lt", "contains", "ge"],
+    "tuple": ["add", "eq", "ne", "lt", "contains", "getitem"],
+    "set": ["or", "and", "sub", "xor", "le", "eq", "contains"],
+    "dict": ["eq", "ne", "or", "contains"],
+    "nested": ["eq", "ne", "contains"],
+}
 
 
 def _kind(v):
@@ -148,7 +230,7 @@ def _small(x):
     return True
 
 
-def _steer_eval(oval, d, avals):
+def _steer_eval(oval, d, avals, big=False):
     """Python's verdict for the generator: ("val", v) | ("exc",) | None (unknown operand) | _TOO_BIG"""
     if oval is None or any(a is None for a in avals):
         return None
@@ -161,7 +243,7 @@ def _steer_eval(oval, d, avals):
         res = _python(v, d, args)
     except Exception:  # noqa: BLE001
         return ("exc",)
-    return ("val", res) if _small(res) else _TOO_BIG
+    return ("val", res) if (big or _small(res)) else _TOO_BIG
 
 
 def _smart_raw(rng, d, v):
@@ -209,7 +291,7 @@ class _Gen:
         self.op_val: list = []
 
     def src(self, value, ctx, ran=None, label=None):
-        s = {"value": value, "ctx": ctx, "ran": self.rng.random() < 0.7 if ran is None else ran}
+        s = {"value": value, "ctx": ctx, "ran": self.rng.random() < 0.7 if ran is None else ran, "now": value}
         if label:
             s["label"] = label
         self.sources.append(s)
@@ -227,13 +309,67 @@ class _Gen:
                 return a["ctx"]
         return None
 
-    def eval_op(self, op):
+    def eval_op(self, op, big=False):
         oval = self.val_of(op["owner"])
         avals = [("val", _lit(o[1])) if o[0] == "raw" else self.val_of(o[1]) for o in op["operands"]]
-        return _steer_eval(oval, op["op"], avals)
+        big = big or any(o[0] == "raw" and len(o[1]) > 30 for o in op["operands"])
+        return _steer_eval(oval, op["op"], avals, big=big)
+
+    def recompute(self):
+        """after a source got a new value: Python's values of all expressions so far, in order"""
+        for a in self.avail:
+            if a["ref"][0] == "src":
+                a["val"] = ("val", _lit(self.sources[a["ref"][1]]["now"]))
+        for j, op in enumerate(self.ops):
+            if op["op"] in MARKERS:
+                continue
+            res = self.eval_op(op)
+            self.op_val[j] = res
+            for a in self.avail:
+                if a["ref"] == ["op", j]:
+                    a["val"] = res if res not in (None, _TOO_BIG) else None
+
+    def update(self, i=None):
+        """a source gets another value of the same kind; every node made so far is pulled and compared again"""
+        rng = self.rng
+        if i is None:
+            used = sorted({o["owner"][1] for o in self.ops if o["op"] not in MARKERS and o["owner"][0] == "src"} |
+                          {x[1][1] for o in self.ops if o["op"] not in MARKERS for x in o["operands"]
+                           if x[0] == "ref" and x[1][0] == "src"})
+            i = rng.choice(used) if used and rng.random() < 0.85 else rng.randrange(len(self.sources))
+        old = self.sources[i].get("now", self.sources[i]["value"])
+        pool = [v for v in _kind_pool(_lit(old)) if v != old] or POOL
+        new = rng.choice(pool if rng.random() < 0.85 else POOL)
+        self.sources[i]["now"] = new
+        self.ops.append({"op": "update", "src": i, "value": new})
+        self.op_val.append(None)
+        self.recompute()
+
+    def bigpair(self):
+        """the same operator with two long / deep / large raw operands that differ in one place, and once more"""
+        rng = self.rng
+        kind, a, b = _big_pair(rng)
+        ctxs = sorted({x["ctx"] for x in self.avail if x["ctx"]})
+        ctx = rng.choices(ctxs, [{"wf": 70, "wf2": 15, "free": 15}[c] for c in ctxs])[0]
+        cands = [x for x in self.avail if x["ctx"] == ctx]
+        fit = [x for x in cands if x["val"] and x["val"][0] == "val" and
+               (_kind(x["val"][1]) == kind or (kind == "int" and _kind(x["val"][1]) == "num"))]
+        d = rng.choice(BIG_OPS.get(kind, BIG_OPS["nested"]))
+        if d == "getitem":
+            fit = [x for x in cands if x["val"] and x["val"][0] == "val" and isinstance(x["val"][1], dict)] or fit
+        if d in ("contains",) and rng.random() < 0.5:
+            fit = [x for x in cands if x["val"] and x["val"][0] == "val" and isinstance(x["val"][1], (list, tuple))] or fit
+        owner = rng.choice(fit if fit and rng.random() < 0.8 else cands)
+        form = rng.choice(["channel", "node"])
+        seq = [a, b] + ([rng.choice([a, b])] if rng.random() < 0.5 else [])
+        for lit in seq:
+            op = {"op": d, "owner": owner["ref"], "owner_form": form, "operands": [["raw", lit]]}
+            res = self.eval_op(op, big=True)
+            self.push(op, None if res is _TOO_BIG else res)
+            form = rng.choice(["channel", "node"])
 
     def push(self, op, res=None):
-        if op["op"] in ("reload", "restart"):
+        if op["op"] in MARKERS:
             self.ops.append(op)
             self.op_val.append(None)
             return
@@ -305,10 +441,14 @@ class _Gen:
 
     def step(self, p_repeat=0.2):
         rng = self.rng
-        real = [j for j, o in enumerate(self.ops) if o["op"] not in ("reload", "restart")]
+        real = [j for j, o in enumerate(self.ops) if o["op"] not in MARKERS]
         r = rng.random()
         if p_repeat > 0.2:
             r = 0.03 + 0.2 * rng.random() if rng.random() < p_repeat else 0.23 + 0.77 * rng.random()
+        elif rng.random() < 0.07:
+            return self.bigpair()
+        elif real and rng.random() < 0.04:
+            return self.update()
         if real and r < 0.03:
             self.push({"op": "reload"})
         elif real and r < 0.23:
@@ -334,7 +474,7 @@ class _Gen:
             self.push(op, res)
 
 
-def gen_history(rng, n_ops, restart=False):
+def gen_history(rng, n_ops, restart=False, rewrite=False):
     g = _Gen(rng)
     g.src(rng.choice(SEQS), "wf")
     g.src(rng.choice(INTS), "wf")
@@ -347,14 +487,58 @@ def gen_history(rng, n_ops, restart=False):
         g.src(rng.choice(POOL), "free")
         if rng.random() < 0.6:
             g.src(rng.choice(INTS), "free")
-    for _ in range(n_ops):
-        g.step()
+    if rewrite:
+        # write expressions (many slices with channel bounds, chains on them), write each of them AGAIN, then
+        # change the values the operands hold and compare every node with Python again; and once more
+        for _ in range(n_ops):
+            if rng.random() < 0.35:
+                cands = [a for a in g.avail if a["ctx"] == "wf"]
+                g.push(g.slice_op(cands))
+            else:
+                g.push(*g.fresh())
+        first = [j for j, o in enumerate(g.ops) if o["op"] not in MARKERS]
+        for _round in range(2):
+            for j in first:
+                if rng.random() < 0.85:
+                    g.push(_flip_forms(rng, g.ops[j]))
+            for _ in range(rng.randint(1, 2)):
+                g.update()
+            if rng.random() < 0.5:
+                g.push(*g.fresh())
+        g.push({"op": "recheck"})
+    else:
+        for _ in range(n_ops):
+            g.step()
     if restart:
         # save, new interpreter session, load; then mostly the same expressions again
         g.push({"op": "restart"})
         for _ in range(max(4, n_ops // 2)):
             g.step(p_repeat=0.7)
-    return {"kind": "history", "sources": g.sources, "ops": g.ops}
+        if rng.random() < 0.5:
+            g.update()
+    return {"kind": "history", "sources": [{k: v for k, v in x.items() if k != "now"} for x in g.sources], "ops": g.ops}
+
+
+def _bigpair_case(rng, kind, size=None):
+    """sources that hold the long / large values themselves, so that all six expressions are valid and their
+    values differ: table[a] / table[b], box.contains(a) / box.contains(b), self.eq(a) / self.eq(b)"""
+    k, a, b = _big_pair(rng, kind, size)
+    hashable = k in ("str", "int", "tuple") and "[" not in a and "{" not in a
+    srcs = [{"value": f"[{a}, 0]", "ctx": "wf", "ran": rng.random() < 0.7},
+            {"value": a, "ctx": "wf", "ran": rng.random() < 0.7},
+            {"value": b, "ctx": "free", "ran": True}]
+    ops = []
+    if hashable:
+        srcs.append({"value": "{" + f"{a}: 1.5, {b}: -7.25" + "}", "ctx": "wf", "ran": True})
+        ops += [{"op": "getitem", "owner": ["src", 3], "owner_form": "node", "operands": [["raw", x]]} for x in (a, b, a)]
+    ops += [{"op": "contains", "owner": ["src", 0], "owner_form": rng.choice(["channel", "node"]), "operands": [["raw", x]]}
+            for x in (a, b)]
+    ops += [{"op": "eq", "owner": ["src", 1], "owner_form": rng.choice(["channel", "node"]), "operands": [["raw", x]]}
+            for x in (b, a, b)]
+    d = rng.choice(BIG_OPS[k])
+    ops += [{"op": d, "owner": ["src", 1], "owner_form": "channel", "operands": [["raw", x]]} for x in (a, b)]
+    ops += [{"op": "ne", "owner": ["src", 2], "owner_form": "channel", "operands": [["raw", x]]} for x in (a, b)]
+    return {"kind": "history", "sources": srcs, "ops": ops}
 
 
 def _sweep_case(rng, d):
@@ -412,6 +596,17 @@ def gen_cases(rng, tier):
         c = gen_history(rng, rng.randint(6, 14), restart=True)
         c["id"] = f"{tier[0]}r{i}"
         yield c
+    for i in range(40 if tier == "quick" else 600):
+        c = gen_history(rng, rng.randint(3, 9), rewrite=True)
+        c["id"] = f"{tier[0]}w{i}"
+        yield c
+    k = 0
+    for kind in ["str", "int", "list", "tuple", "set", "dict", "dictkey", "nested", "liststr"]:
+        for _ in range(5 if tier == "quick" else 40):
+            c = _bigpair_case(rng, kind)
+            c["id"] = f"{tier[0]}big{k}"
+            yield c
+            k += 1
     n_pairs = 4 if tier == "quick" else 30
     k = 0
     for d in DUNDERS + ["slice"]:
@@ -690,6 +885,7 @@ class _Run:
         self.inj_ctx: list = []
         self.inj_exp: list = []  # expected value of node k: ("val", v) | ("exc", name) | None (undefined)
         self.op_node: list = []  # op index -> k of its result node | None
+        self.defn: list = []  # node k -> (d, owner identity, [operand identity | ("lit", value)]) | None
         self.obs: list = []
         self.rec: list = []
         self.stats: dict = {}
@@ -791,16 +987,83 @@ class _Run:
             self.bump(k, v)
         return True
 
+    def expected(self, ident, memo):
+        """Python's value of a channel from the CURRENT source values: ("val", v) | ("exc", name) | None (undefined:
+        something upstream raises, or the node was not made by a recorded expression)"""
+        ident = tuple(ident)
+        if ident in memo:
+            return memo[ident]
+        if ident[0] == "src":
+            res = ("val", self.src_vals[ident[1]])
+        else:
+            df = self.defn[ident[1]] if ident[1] < len(self.defn) else None
+            res = None
+            if df is not None:
+                d, owner, opers = df
+                vals = [("val", o[1]) if o[0] == "lit" else self.expected(o, memo) for o in opers]
+                ov = ("val", None) if owner is None else self.expected(owner, memo)
+                if ov is not None and ov[0] == "val" and all(v is not None and v[0] == "val" for v in vals):
+                    try:
+                        if d == "mkslice":
+                            res = ("val", slice(*[v[1] for v in vals]))
+                        else:
+                            res = ("val", _python(ov[1], d, [v[1] for v in vals]))
+                    except Exception as e:  # noqa: BLE001
+                        res = ("exc", type(e).__name__)
+        memo[ident] = res
+        return res
+
+    def recheck(self, r):
+        """pull every node an expression has made so far (helper Slice nodes included) and compare with Python again"""
+        memo: dict = {}
+        bad, n = [], 0
+        for node in self.src_nodes + self.inj_nodes:
+            node.failed = False  # as a user would, before running again after a failure
+        for k, node in enumerate(self.inj_nodes):
+            exp = self.expected(("node", k), memo)
+            if exp is None:
+                continue
+            for w in self.wfs.values():
+                w.failed = False
+            try:
+                got = ("val", node.pull())
+            except Exception as e:  # noqa: BLE001
+                got = ("exc", type(e).__name__)
+                node.failed = False
+            n += 1
+            ok = (got[0] == exp[0]) and (got[1] == exp[1] if got[0] == "exc" else _same(got[1], exp[1]))
+            if not ok:
+                bad.append({"k": k, "d": self.defn[k][0], "ctx": self.inj_ctx[k],
+                            "exp": [exp[0], exp[1] if exp[0] == "exc" else repr(exp[1])[:200]],
+                            "got": [got[0], got[1] if got[0] == "exc" else repr(got[1])[:200]]})
+        r["rechecked"] = n
+        r["recheck_bad"] = bad
+        self.bump("rechecked", n)
+
+    def update(self, op):
+        self.op_node.append(None)
+        r = {"d": op["op"], "injected": False, "exp": None, "raised": None}
+        if op["op"] == "update":
+            i = op["src"] % len(self.src_nodes)
+            v = _lit(op["value"])
+            self.src_nodes[i].inputs.user_input.value = v
+            self.src_vals[i] = v
+            r["src"] = i
+        self.recheck(r)
+        self.rec.append(r)
+        self.bump(f"op:{op['op']}")
+
     def op(self, op):
         from pyiron_workflow.channels import NOT_DATA
 
         d = op["op"]
         onode, ochan, oexp, oid, otok, ctx = self.resolve(op["owner"])
         x = onode if op["owner_form"] == "node" else ochan
-        args, arg_exp, arg_ids, arg_toks, flags = [], [], [], [], ""
+        args, arg_exp, arg_ids, arg_toks, flags, arg_defs = [], [], [], [], "", []
         for o in op["operands"]:
             if o[0] == "raw":
                 v = _lit(o[1])
+                arg_defs.append(("lit", v))
                 args.append(v)
                 arg_exp.append(("val", v))
                 arg_ids.append(("raw", type(v).__qualname__, repr(v)))
@@ -811,6 +1074,7 @@ class _Run:
                 if ctx2 != ctx:  # operand from another parent: use the owner itself
                     n2, c2, e2, id2, t2 = onode, ochan, oexp, oid, otok
                 args.append(n2 if o[2] == "node" else c2)
+                arg_defs.append(tuple(id2))
                 arg_exp.append(e2)
                 arg_ids.append(("ref",) + id2)
                 arg_toks.append(t2)
@@ -829,6 +1093,7 @@ class _Run:
         for w in self.wfs.values():
             w.failed = False
         before = self.count(ctx)
+        kids_before = list(self.wfs[ctx].children.values()) if ctx in self.wfs else []
         raised = None
         node = None
         _CREATED.clear()
@@ -853,7 +1118,10 @@ class _Run:
             self.inj_nodes.append(m)
             self.inj_ctx.append(ctx)
             self.inj_exp.append(None)
+            self.defn.append(None)
         r["count_after"] = self.count(ctx)
+        kids_after = list(self.wfs[ctx].children.values()) if ctx in self.wfs else []
+        r["children_same"] = len(kids_before) == len(kids_after) and all(a is b for a, b in zip(kids_before, kids_after))
         if node is None and not made:
             # the expression raised without making any node
             r["injected"] = False
@@ -891,6 +1159,14 @@ class _Run:
             self.obs.append(f"node {k} {type(node).__name__} {new} {self.count(ctx)} {','.join(node.inputs.labels)}")
             result_new = bool(new)
         self.op_node.append(r["k"])
+        # what the nodes made by this expression stand for (to compare them with Python again later)
+        if d == "slice":
+            if isinstance(r.get("ks"), int) and r.get("news", 1):
+                self.defn[r["ks"]] = ("mkslice", None, arg_defs)
+            if r["k"] is not None and r["new"]:
+                self.defn[r["k"]] = ("slice", tuple(oid), arg_defs)
+        elif r["new"]:
+            self.defn[r["k"]] = (d, tuple(oid), arg_defs)
         # the value, evaluated once per node (at its creation)
         if result_new:
             if got is None:
@@ -923,6 +1199,8 @@ class _Run:
             elif op["op"] == "restart":
                 if self.restart(ops[i + 1:]) is True:
                     return  # the rest ran in the other session
+            elif op["op"] in ("update", "recheck"):
+                self.update(op)
             else:
                 self.op(op)
 
